@@ -6,6 +6,24 @@ PROP_FILES = ["Properties_C17.v"]
 DUMP_CLASSES = ("defs", "udata", "fsr", "anno", "utc")
 
 
+def edge_items(rng):
+    """user-data items whose payload ends within a few bytes of a power-of-two scratch-buffer size (1 MiB, then 2 MiB after a larger
+    item): jls_copy reads every chunk through one growing buffer, and the on-disk size is payload + pad + CRC"""
+    if rng.random() > 0.12:
+        return []
+    out = []
+    for _ in range(rng.choice([1, 2])):
+        st = rng.choice([1, 1, 2])
+        n = (1 << 20) - rng.choice([0, 1, 2, 3, 4, 5]) - (1 if st == 2 else 0)
+        out.append("ud %d %d g%d.%d" % (rng.choice([1, 0x123]), st, n, rng.randrange(1, 999)))
+    if rng.random() < 0.4:
+        out.append("ud 7 1 g%d.%d" % ((1 << 20) + rng.choice([17, 5000]), rng.randrange(1, 999)))
+        out.append("ud 8 1 g%d.%d" % ((1 << 21) - rng.choice([0, 1, 2, 3, 4]), rng.randrange(1, 999)))
+    if rng.random() < 0.5:
+        out.insert(rng.randrange(0, len(out) + 1), "ud 9 1 g12.5")
+    return out
+
+
 def gen_writer(rng, tier, allow_omit=True, deep=False):
     """a writer program in the style of C05: several sources/signals/types, annotations, UTC, user data"""
     ops = ["wopen"]
@@ -81,7 +99,7 @@ def gen_writer(rng, tier, allow_omit=True, deep=False):
                          may_omit=any(c.startswith("omit") for c in merged) or (DT_BITS[dt] <= 8 and any(c.startswith("fsr") and c.split()[4] == "0" for c in merged)))
     if rng.random() < 0.5:
         body.append(["anno 0 %d 3f800000 1 0 2 g6.%d" % (t, t) for t in sorted(rng.sample(range(0, 1000), rng.choice([1, 3, 12])))])
-    body.append(["ud %d %d g%d.%d" % (rng.choice([1, 0xfff]), rng.choice([1, 2, 3]), rng.choice([0, 9, 1000]), rng.randrange(1, 999)) for _ in range(rng.randrange(0, 4))])
+    body.append(["ud %d %d g%d.%d" % (rng.choice([1, 0xfff]), rng.choice([1, 2, 3]), rng.choice([0, 9, 1000]), rng.randrange(1, 999)) for _ in range(rng.randrange(0, 4))] + edge_items(rng))
     idx = [0] * len(body)
     while any(idx[k] < len(body[k]) for k in range(len(body))):
         k = rng.choice([k for k in range(len(body)) if idx[k] < len(body[k])])
@@ -235,7 +253,7 @@ def gen_ramp_writer(rng, tier):
         ramp[sid] = (first, base)
     if rng.random() < 0.5:
         body.append(["anno 0 %d 3f800000 1 0 %d g6.%d" % (t, rng.choice([1, 2]), t) for t in sorted(rng.sample(range(0, 1000), rng.choice([1, 3, 12])))])
-    body.append(["ud %d %d g%d.%d" % (rng.choice([1, 0xfff]), rng.choice([0, 1, 2, 3]), rng.choice([0, 9, 1000]), rng.randrange(1, 999)) for _ in range(rng.randrange(0, 4))])
+    body.append(["ud %d %d g%d.%d" % (rng.choice([1, 0xfff]), rng.choice([0, 1, 2, 3]), rng.choice([0, 9, 1000]), rng.randrange(1, 999)) for _ in range(rng.randrange(0, 4))] + edge_items(rng))
     if rng.random() < 0.3:
         body.append(["src 1 e e e e e"])                                                                    # repeated source: rejected
     idx = [0] * len(body)
